@@ -8,7 +8,7 @@ claimed={c['id'] for c in checks['checks']}
 m={
  "version":1,
  "setup_cmd":"bash /verif/scripts/build.sh",
- "hooks":{"guard":"verif","enable":"go build -tags 'byollvm verif' -overlay /verif/.build/overlay.json (scripts/mkoverlay.py adds every file under /verif/hooks to the matching /repo package; /repo itself carries no hook code)",
+ "hooks":{"guard":"verif","enable":"go build -tags 'byollvm verif' -overlay /verif/.build/v/<verif hash>/overlay.json (scripts/mkoverlay.py adds every file under /verif/hooks to the matching /repo package; /repo itself carries no hook code)",
           "baseline_off_cmd":"bash /verif/scripts/baseline.sh","source_commits":[],"add_only":True},
  "engines":checks['engines'],
  "checks":[],
